@@ -36,8 +36,16 @@ def gen_cases(seed, tier, n):
         c["params"] = {"numk": rng.choice([1, 1, 2, 2, 3, 4, 5, 8, 12]), "k16": rng.randint(1, 16), "mem": rng.random() < 0.5}
         if i % 3 == 1:
             tracegen.relabel_ranks(c)      # a subset of a job: rank ids are not 0..n-1, and not listed in order
+        if i % 6 == 3:
+            # history: the trace is decoded for display (decode_symbol_ids(), shortened names) before the analysis runs; some kernels have
+            # names whose kind is decided by the part the shortening strips
+            import random as _r
+            tracegen.tricky_kernel_names(c, _r.Random(seed * 271 + i))
+            c["params"]["decoded"] = True
         if i % 8 == 6:
             fw.set_quarter_us(c)           # quarter-microsecond resolution (framework.resolution)
+        if i % 16 == 11 and not c["params"].get("quarter_us"):
+            tracegen.scale_case(c, 10 ** 8)     # a long trace: sums beyond 2**24 and 2**31 (the models are homogeneous in time)
         out.append(c)
     return out
 
@@ -60,6 +68,8 @@ def run_impl(case, d):
         frames = {r: fw.dump_frame_res(case, ta.t.get_trace(r), sym) for r in ranks}
         p = case["params"]
         out = {}
+        if case["params"].get("decoded"):
+            ta.t.decode_symbol_ids()
         try:
             tdf, kdf = ta.get_gpu_kernel_breakdown(visualize=False, duration_ratio=p["k16"] / 16.0, num_kernels=p["numk"], include_memory_kernels=p["mem"])
             out["types"] = [[str(rec["kernel_type"]), float(rec["sum"]) * k, float(rec["percentage"])] for rec in tdf.to_dict("records")]
